@@ -65,6 +65,36 @@ def run_pair(q, text, T, B=None, check_sources=False, mutate_output=False):
     return (g, e)
 
 
+def run_pair_counting(q, text, T, cycle=0):
+    """Consumption clause: the engine driven through rbql_engine.query with a counting user iterator.
+    cycle > 0: the iterator is unbounded (it repeats T forever); the reference sees T repeated `cycle` times and must stop inside."""
+    from vf import stubs
+    Tc = copy_table(T)
+    if cycle:
+        ref_T = []
+        for _ in range(cycle):
+            ref_T += copy_table(T)
+        exp = rel.run(q, ref_T, None)
+        it = stubs.CyclicIterator(T)
+    else:
+        exp = rel.run(q, Tc, None)
+        it = stubs.CountingIterator(T)
+    out = []
+    warnings = []
+    w = rbql_engine.TableWriter(out)
+    try:
+        rbql_engine.query(text, it, w, warnings)
+        got = ('ok', out, w.header, warnings)
+    except (rbql_engine.RbqlRuntimeError, rbql_engine.RbqlParsingError, rbql_engine.RbqlIOHandlingError) as e:
+        got = ('err', type(e).__name__, e.args[0] if e.args else '', out)
+    g, e = normalise(got, exp)
+    if exp[0] == 'ok':
+        if cycle and exp[4] > len(ref_T):
+            return ((g, it.calls), (e, 'reference did not stop inside %d repetitions' % cycle))
+        return ((g[:3], it.calls), (e[:3], exp[4]))
+    return (g, e)
+
+
 # ------------------------------------------------------------------ generation
 
 def table_params(prefix, rows, slen=2, krange=None, irange=None):
@@ -111,7 +141,7 @@ def shape_name(rows):
 
 
 def query_obl(prop, case_name, q, a_rows, b_rows=None, slen=2, krange=None, irange=None, timeout=60, check_sources=False, mutate_output=False,
-              expect='hold', finding=None, extra_pre=None, text=None, tag=''):
+              expect='hold', finding=None, extra_pre=None, text=None, tag='', counting=False, cycle=0):
     """Obligation: for every table of the given shape, real engine == reference on query case `case_name` of property module `prop`."""
     pa, pb1, po1, texpr = table_params('a', a_rows, slen, krange, irange)
     params, pre_b, pre_o = list(pa), list(pb1), list(po1)
@@ -129,8 +159,8 @@ def query_obl(prop, case_name, q, a_rows, b_rows=None, slen=2, krange=None, iran
     body = indent('''
 T = %s
 B = %s
-return qh.run_pair(Q, TEXT, T, B, check_sources=%r, mutate_output=%r)
-''' % (texpr, bexpr, check_sources, mutate_output))
+return %s
+''' % (texpr, bexpr, ('qh.run_pair_counting(Q, TEXT, T, cycle=%d)' % cycle) if counting else ('qh.run_pair(Q, TEXT, T, B, check_sources=%r, mutate_output=%r)' % (check_sources, mutate_output))))
     src = harness(imports, params, pre_b + pre_o + (extra_pre or []), body)
     name = '%s%s[A=%s%s]' % (case_name, tag, shape_name(a_rows), (',B=' + shape_name(b_rows)) if b_rows is not None else '')
     bounds = 'every input table of shape %s (s=str len<=%d, o=str|None, i=int, k=int<%s, d=digit string)%s' % (
